@@ -117,6 +117,16 @@ def make_items(cx, spec, nprog, nenv, streams=('corpus', 'fragment', 'shapes')):
         for i in (idxs[:48] if cx.quick() else idxs):
             items.append({'name': f'lookalike/{cx.seed}/{i}', 'src': gen.lookalike(cx.seed, i), 'nenv': max(30, nenv // 3), 'seed': cx.seed, 'stream': 'lookalike'})
     if 'layout' in streams:
+        # fixed layouts: a multi-way branch as the LAST instruction (no fall-through: every successor is a jump target), with distinct
+        # and with repeated targets, in the main code and in a subroutine; a two-way branch last whose target is the first instruction
+        for k, src in enumerate([
+                "#pragma version 8\nb main\na:\nint 1\nreturn\nb:\nint 2\nreturn\nmain:\nload 0\nswitch a b\n",
+                "#pragma version 8\nb main\na:\nint 1\nreturn\nb:\nint 2\nreturn\nc:\nerr\nmain:\nload 0\nswitch a b c a\n",
+                "#pragma version 8\nb main\na:\nint 1\nreturn\nb:\nint 2\nreturn\nmain:\nint 7\nint 8\nload 0\nmatch a b\n",
+                "#pragma version 8\ncallsub f\nint 1\nreturn\nx:\nretsub\ny:\nint 3\npop\nretsub\nf:\nload 1\nswitch x y x\n",
+                "#pragma version 8\ntop:\nload 0\nint 1\n+\nstore 0\nload 0\nint 3\n<\nbnz top\n",
+                "#pragma version 8\nb main\na:\nint 1\nreturn\nmain:\nload 0\nswitch a\n"]):
+            items.append({'name': f'fixedlayout/{k}', 'src': src, 'nenv': nenv // 3, 'seed': cx.seed, 'stream': 'layout'})
         for i in range(nprog):
             items.append({'name': f'layout/{cx.seed}/{i}', 'src': gen.layout(cx.seed, i), 'nenv': nenv // 3, 'seed': cx.seed, 'stream': 'layout'})
             items.append({'name': f'dense/{cx.seed}/{i}', 'src': gen.dense(cx.seed, i), 'nenv': nenv // 3, 'seed': cx.seed, 'stream': 'layout'})
